@@ -216,6 +216,12 @@ fn apply(reg: &mut Registry, req: &Req) -> Applied {
     Applied { pairs: c.pairs, mismatch, structural: c.structural, refs }
 }
 
+/// Do the compile-time definitions of two references differ?  (Evaluated by
+/// the oracle, counters disarmed; nested types compare by identity.)
+fn definitions_differ(a: TyRef, b: TyRef) -> bool {
+    meta(a).type_info() != meta(b).type_info()
+}
+
 /// One registry with its monitors.
 struct Site {
     name: &'static str,
@@ -225,7 +231,7 @@ struct Site {
     tid_to_id: BTreeMap<TypeId, u32>,
     id_to_tid: BTreeMap<u32, TypeId>,
     key_to_id: BTreeMap<Tx, u32>,
-    id_to_key: BTreeMap<u32, Tx>,
+    id_to_key: BTreeMap<u32, (Tx, TyRef)>,
     held: Vec<(MetaType, u32)>,
     /// number of entries after each delivery
     sizes: Vec<usize>,
@@ -395,17 +401,24 @@ impl Site {
                         }
                     }
                     match self.id_to_key.get(id) {
-                        Some(old) if *old != k => {
-                            fail(mask, "C05", "distinct_types_share_id", || {
-                                format!(
-                                    "{} event {}: id {} stands for {:?} and for {:?}",
-                                    self.name, e, id, old, k
-                                )
-                            })?;
+                        Some((old, old_ref)) if *old != k => {
+                            // "types with different definitions or different generic
+                            // arguments never share an id": two identities of the model
+                            // behind one id are a violation when their definitions differ
+                            if definitions_differ(*old_ref, *t) {
+                                fail(mask, "C05", "distinct_types_share_id", || {
+                                    format!(
+                                        "{} event {}: id {} stands for {:?} and for {:?}, whose definitions differ",
+                                        self.name, e, id, old, k
+                                    )
+                                })?;
+                            } else {
+                                probe("suppressed.two_model_identities_one_id_same_definition");
+                            }
                         }
                         Some(_) => {}
                         None => {
-                            self.id_to_key.insert(*id, k);
+                            self.id_to_key.insert(*id, (k, *t));
                         }
                     }
                 }
@@ -527,6 +540,7 @@ impl Site {
 
     /// Consume the registry: publication, with the final checks.
     fn publish(self, mask: Mask) -> Result<Published, Violation> {
+        let self_closure_incomplete = self.closure_incomplete;
         let Site { name, reg, psnap, held, tid_to_id, sizes, flags, snap, .. } = self;
         let pr: PortableRegistry = reg.into();
         let p = PReg::from_lib(&pr);
@@ -536,6 +550,19 @@ impl Site {
         {
             fail(mask, "C11", "publication_differs_from_last_state", || {
                 format!("{}: published {} entries, observed {}", name, p.len(), psnap.len())
+            })?;
+        }
+        // C05 on the published registry: still exactly one entry per identity
+        let incomplete = self_closure_incomplete;
+        if (!incomplete && p.len() != tid_to_id.len()) || p.len() < tid_to_id.len() {
+            fail(mask, "C05", "published_entry_count", || {
+                format!(
+                    "{}: the published registry has {} entries for {}{} distinct identities reachable from what was registered",
+                    name,
+                    p.len(),
+                    if incomplete { "at least " } else { "" },
+                    tid_to_id.len()
+                )
             })?;
         }
         oracle::check_well_formed(mask, "from_registry", &pr, &p)?;
@@ -791,7 +818,7 @@ fn execute_faulted(scn: &RegScenario, mask: Mask) -> Result<RegResult, Violation
     let mut seen: BTreeMap<u32, Type<PortableForm>> = BTreeMap::new();
     let mut fired_at: Option<usize> = None;
     let mut key_to_id: BTreeMap<Tx, u32> = BTreeMap::new();
-    let mut id_to_key: BTreeMap<u32, Tx> = BTreeMap::new();
+    let mut id_to_key: BTreeMap<u32, (Tx, TyRef)> = BTreeMap::new();
     let mut fired_nodes: Vec<u8> = Vec::new();
     for (e, d) in scn.owner.iter().enumerate() {
         probe("events.delivery");
@@ -847,14 +874,16 @@ fn execute_faulted(scn: &RegScenario, mask: Mask) -> Result<RegResult, Violation
                             }
                         }
                         match id_to_key.get(id) {
-                            Some(old) if *old != k => {
-                                fail(mask, "C05", "fault.distinct_types_share_id", || {
-                                    format!("event {}: id {} stands for {:?} and for {:?}", e, id, old, k)
-                                })?;
+                            Some((old, old_ref)) if *old != k => {
+                                if definitions_differ(*old_ref, *t) {
+                                    fail(mask, "C05", "fault.distinct_types_share_id", || {
+                                        format!("event {}: id {} stands for {:?} and for {:?}", e, id, old, k)
+                                    })?;
+                                }
                             }
                             Some(_) => {}
                             None => {
-                                id_to_key.insert(*id, k);
+                                id_to_key.insert(*id, (k, *t));
                             }
                         }
                     }
